@@ -16,7 +16,7 @@ import (
 	"golang.org/x/tools/go/ssa/ssautil"
 )
 
-const repoDir = "/repo"
+var repoDir = envOr("PVERIF_REPO", "/repo")
 const modPath = "github.com/google/pprof"
 const contractFileName = "zz_verif_contracts.go"
 
@@ -89,6 +89,13 @@ func LoadProg(pkgPaths []string) (*Prog, error) {
 		}
 	}
 	return P, nil
+}
+
+func envOr(k, d string) string {
+	if v := os.Getenv(k); v != "" {
+		return v
+	}
+	return d
 }
 
 func (p *Prog) globalID(g *ssa.Global) int {
